@@ -43,3 +43,7 @@ chk("C05","model_checking",
  "every assignment of event types to 3-4(5) L0 segments x fan-in k, three compaction rounds on the real CompactionWorker with the full observation suite after every round (before == after, attributed with the stored events); for a subset the compaction task is held at every gate of its first round while the suite is read; crash at every FS-mutation boundary of compaction histories with recovery judged by the C01 oracle",
  "compaction triggered through the public worker API with the shard's live list and flush lock; queries whose pre-compaction answer is already wrong (C02/C04 defects) are not judged; exact-case known findings in known/C05.*.json and C01's protocol model for crash points",
  "exhaustive enumeration of segment populations x rounds, gate-controlled schedules and crash points on the real implementation","histx+schedx+crashx","DESIGN.md §3 C05")
+chk("C04","model_checking",
+ "three per-context append patterns x every placement of <= j layout ops (FLUSH, COMPACT, RESTART) between the appends x configurations are executed on the real engine; every REPLAY variant's exact returned key sequence is compared with the append order",
+ "result streams follow tokio's deterministic single-thread order (fan-in gates are not explored); exact-case known findings in known/C04.*.json",
+ "exhaustive bounded history enumeration of the real implementation against a sequence oracle","histx","DESIGN.md §3 C04")
